@@ -76,11 +76,18 @@ Record svc := MkSvc {
   s_obj : string       (* Attributes.K8sAttributes.ObjectName *)
 }.
 
-(* pilot/pkg/model/push_context.go SortServicesByCreationTime: the closure, branch for branch *)
+(* pilot/pkg/model/push_context.go SortServicesByCreationTime: the closure, branch for branch
+   (after fix 2ebf73e: ties on (time, name, namespace) fall back to ObjectName, then Hostname) *)
 Definition svc_cmp (i j : svc) : comparison :=
   match Z.compare (s_time i) (s_time j) with
   | Eq => match String.compare (s_name i) (s_name j) with
-          | Eq => String.compare (s_ns i) (s_ns j)
+          | Eq => match String.compare (s_ns i) (s_ns j) with
+                  | Eq => match String.compare (s_obj i) (s_obj j) with
+                          | Eq => String.compare (s_host i) (s_host j)
+                          | r => r
+                          end
+                  | r => r
+                  end
           | r => r
           end
   | r => r
@@ -219,7 +226,12 @@ Record nsvc := MkNsvc {
   n_time : Z
 }.
 
-(* pilot/pkg/model/sidecar.go pickBestVisibleNamespace; [l] = byNamespace in map iteration order *)
+(* pilot/pkg/model/sidecar.go pickBestVisibleNamespace; [l] = byNamespace in map iteration order.
+   [better s b] is the replacement condition (after fix 2ebf73e):
+   svc.CreationTime.Before(best) || (svc.CreationTime.Equal(best) && svc.Namespace < best.Namespace) *)
+Definition better (s b : nsvc) : bool :=
+  (n_time s <? n_time b)%Z || ((n_time s =? n_time b)%Z && String.ltb (n_ns s) (n_ns b)).
+
 Fixpoint pick_best_loop (l : list nsvc) (best : option nsvc) : string :=
   match l with
   | [] => match best with Some b => n_ns b | None => "" end
@@ -228,7 +240,7 @@ Fixpoint pick_best_loop (l : list nsvc) (best : option nsvc) : string :=
         if n_kube s then n_ns s
         else match best with
              | None => pick_best_loop l' (Some s)
-             | Some b => if (n_time s <? n_time b)%Z then pick_best_loop l' (Some s)
+             | Some b => if better s b then pick_best_loop l' (Some s)
                          else pick_best_loop l' best
              end
       else pick_best_loop l' best
